@@ -125,6 +125,15 @@ def array_convert_forms(ia, ib, us1, us2, d, form):
     r = arr.convert(tgt)
     if len(r) != 3 or dims(r) != tuple(d):
         return False
+    # conversion returns a new quantity: the source keeps its numbers and units, and converting it again gives the same result
+    if [float(v) for v in arr.value] != [float(v) for v in vals] or arr.units != Units(SYS[us1], UnitsDimensions(*d)):
+        return False
+    r2 = arr.convert(tgt)
+    if [float(v) for v in r2.value] != [float(v) for v in r.value] or r2.value is r.value:
+        return False
+    back = r.convert(Units(SYS[us1], UnitsDimensions(*d)))
+    if any(abs(float(b) - x) > 1e-9 * abs(x) for b, x in zip(back.value, vals)):
+        return False
     for i, x in enumerate(vals):
         sv = UnitValue(x, Units(SYS[us1], UnitsDimensions(*d)))
         if abs(si(r.get_at(i)) - si(sv)) > 1e-9 * abs(si(sv)):
